@@ -4,9 +4,11 @@ import (
 	"bytes"
 	"encoding/hex"
 	"fmt"
+	"github.com/jcmturner/gokrb5/v8/zzverif/vclock"
 	"math/rand"
 	"strings"
 	"sync"
+	"verif/checks/cworld"
 
 	"verif/engine"
 	"verif/ref/der"
@@ -55,12 +57,13 @@ func RunC08(c *engine.Ctx) {
 	nfoldAndDerivation(c)
 	paDataPrecedence(c)
 	defaultSalts(c)
+	clientHintPrecedence(c)
 	generatedKeys(c)
 	ev := c.Counter("evaluations")
 	c.Add("states", ev)
 	c.Add("transitions", ev)
 	c.Add("traces_validated_against_impl", ev)
-	c.Cov["rule"] = "string-to-key: etype(6) x 14 passwords x 5 salts x iteration counts (quick: 1..64, powers of two, defaults on a sub-grid; thorough: 1..5000) x malformed parameters; n-fold: every input length 1..64 x output sizes {8,16,21,24,32} x all unit-bit vectors, all-ones, seeded; DK/DR/KDF with constants of every length 1..16; DES3 random-to-key: all 256 values at each byte position + pre-images of all 16 weak keys in each third; GetKeyFromPassword: every ordered sequence of every subset of the three PA-data hints (x etype named by each hint); default salt: 10 realms (case, non-ASCII, empty, blanks) x 10 names x etypes x {no hints, hints without salt}; generated keys for each etype. distinct = (sub-space, etype, cell) combinations that agreed with the reference"
+	c.Cov["rule"] = "string-to-key: etype(6) x 14 passwords x 5 salts x iteration counts (quick: 1..64, powers of two, defaults on a sub-grid; thorough: 1..5000) x malformed parameters; n-fold: every input length 1..64 x output sizes {8,16,21,24,32} x all unit-bit vectors, all-ones, seeded; DK/DR/KDF with constants of every length 1..16 and the usage constants of every usage number 0..1200 and of numbers carrying a tag octet (0x55/0x99/0xAA) in any byte; DES3 random-to-key: all 256 values at each byte position + pre-images of all 16 weak keys in each third; GetKeyFromPassword: every ordered sequence of every subset of the three PA-data hints (x etype named by each hint); the same hint sequences (with decoys in the lower-precedence kinds) presented by a simulated KDC to the real client's login for 9 (real, decoy) etype pairs; default salt: 10 realms (case, non-ASCII, empty, blanks) x 10 names x etypes x {no hints, hints without salt}; generated keys for each etype. distinct = (sub-space, etype, cell) combinations that agreed with the reference"
 }
 
 func s2kGrid(c *engine.Ctx) {
@@ -252,7 +255,7 @@ func nfoldAndDerivation(c *engine.Ctx) {
 				consts = append(consts, randBytes(r, l), bytes.Repeat([]byte{0}, l))
 			}
 			consts = append(consts, []byte("kerberos"), []byte("prf"), []byte("signaturekey\x00"))
-			for _, u := range Usages {
+			for _, u := range denseUsages(key) {
 				for _, tag := range []byte{0x99, 0xAA, 0x55} {
 					consts = append(consts, append(be32(u), tag))
 				}
@@ -286,7 +289,7 @@ func nfoldAndDerivation(c *engine.Ctx) {
 		g := goET(et)
 		p, _ := rcrypto.Get(et)
 		for _, key := range keys(et, 2, c.Seed) {
-			for _, u := range Usages {
+			for _, u := range denseUsages(key) {
 				for _, tag := range []byte{0x99, 0xAA, 0x55} {
 					k := append(be32(u), tag)
 					got, err := g.DeriveKey(key, k)
@@ -547,6 +550,7 @@ func paDataPrecedence(c *engine.Ctx) {
 		}
 	}
 	c.Sample(map[string]interface{}{"padata_sequence": "[ETYPE-INFO2, PW-SALT]", "expect": "salt and s2kparams from ETYPE-INFO2 although PW-SALT comes later"})
+	c.Note("not judged: a PREAUTH_REQUIRED error whose e-data carries PA-PW-SALT alone (no etype named): the client fails with 'unsupported EType: 0'")
 	c.Note("not judged: EncryptionKey.KeyType when the hint's etype differs from the requested etype (gokrb5 labels the key with the requested id)")
 }
 
@@ -641,6 +645,107 @@ func saltShape(realm string, ns []string, got string) string {
 		return "several-components"
 	}
 	return "plain"
+}
+
+// clientHintPrecedence: the same precedence through the real client. A simulated KDC answers the first AS-REQ
+// with PREAUTH_REQUIRED whose e-data carries every ordered sequence of every non-empty subset of the three hint
+// kinds; the kind of highest precedence carries the principal's real etype, salt and parameters, the others carry
+// decoys. The login must succeed, i.e. the PA-ENC-TIMESTAMP must be made with the real etype's key.
+func clientHintPrecedence(c *engine.Ctx) {
+	defer vclock.Real()
+	kinds := []int32{paPWSalt, paInfo, paInfo2}
+	var seqs [][]int32
+	var rec func(cur []int32, used int)
+	rec = func(cur []int32, used int) {
+		if len(cur) > 0 {
+			seqs = append(seqs, append([]int32{}, cur...))
+		}
+		for i, k := range kinds {
+			if used&(1<<uint(i)) == 0 {
+				rec(append(cur, k), used|1<<uint(i))
+			}
+		}
+	}
+	rec(nil, 0)
+	pairs := [][2]int32{{18, 17}, {17, 18}, {23, 17}, {17, 23}, {18, 23}, {16, 18}, {19, 20}, {20, 19}, {18, 18}}
+	for _, pr := range pairs {
+		for _, seq := range seqs {
+			if len(seq) == 1 && seq[0] == paPWSalt {
+				// a PREAUTH_REQUIRED error naming no etype at all: which etype the client then uses is not stated by the
+				// property (gokrb5 gives up: "unknown or unsupported EType: 0"); not judged
+				c.Add("not_judged", 1)
+				continue
+			}
+			o := cworld.DefaultOpts()
+			o.Cred, o.PreAuth = "password", "required"
+			o.ETypes = []int32{pr[0], pr[1]}
+			if pr[0] == pr[1] {
+				o.ETypes = []int32{pr[0]}
+			}
+			salt := "the principal's real salt"
+			o.Salt = &salt
+			o.HintSeq, o.DecoyEtype = seq, pr[1]
+			vclock.Virtual(cworld.T0)
+			var err error
+			var w *cworld.World
+			pn := safely(func() {
+				w = cworld.New(o)
+				err = w.Client.Login()
+			})
+			c.Add("evaluations", 1)
+			cs := map[string]interface{}{"real_etype": pr[0], "decoy_etype": pr[1], "hint_sequence": seqName(seq)}
+			switch {
+			case pn != "":
+				c.Violate("padata", "client:hint-precedence:panic", map[string]interface{}{"panic": pn}, cs)
+			case err != nil:
+				var kv []string
+				if w != nil {
+					kv = w.Violations()
+				}
+				c.Violate("padata", "client:hint-precedence:login-fails:"+seqName(seq), map[string]interface{}{"err": truncErr(err), "kdc_says": kv}, cs)
+			default:
+				c.Distinct(fmt.Sprintf("client-hints/%d/%d/%s", pr[0], pr[1], seqName(seq)))
+			}
+		}
+	}
+}
+
+func truncErr(err error) string {
+	s := err.Error()
+	if len(s) > 400 {
+		s = s[:400]
+	}
+	return s
+}
+
+// denseUsages: the named usage set, every usage number 0..1200, and numbers carrying one of the three derivation
+// tag octets (0x55, 0x99, 0xAA) in each byte position, alone and next to another tag octet.
+func denseUsages(key []byte) []uint32 {
+	out := append([]uint32{}, Usages...)
+	seen := map[uint32]bool{}
+	for _, u := range out {
+		seen[u] = true
+	}
+	add := func(u uint32) {
+		if !seen[u] {
+			seen[u] = true
+			out = append(out, u)
+		}
+	}
+	for u := uint32(0); u <= 1200; u++ {
+		add(u)
+	}
+	tags := []uint32{0x55, 0x99, 0xAA}
+	for _, t := range tags {
+		for sh := uint(0); sh < 32; sh += 8 {
+			add(t << sh)
+			add(t<<sh | 1)
+			for _, t2 := range tags {
+				add(t<<sh | t2<<((sh+8)%32))
+			}
+		}
+	}
+	return out
 }
 
 func otherEtype(et int32) int32 {
